@@ -476,7 +476,7 @@ func (r *rwRT) ruleGenEnv() {
 	pos := r.w.FnPos(fn)
 	ok := true
 	why := ""
-	for _, env := range []string{"", "walk_co.go"} {
+	for _, env := range []string{"", "walk_co.go", "walk_co_test.go", "gen.go"} {
 		in := &Interp{W: r.w, MaxDepth: 6, Inline: func(f *ssa.Function) bool { return fnPkgPath(f) == pathCogen }}
 		env := env
 		in.OnCall = func(cc *CallCtx) []Answer {
@@ -505,7 +505,7 @@ func (r *rwRT) ruleGenEnv() {
 			}
 		}
 		if env != "" && calls == 0 {
-			ok, why = false, "GoGen is not called in go:generate mode"
+			ok, why = false, "GoGen is not called in go:generate mode when the directive sits in "+env+" (the directive may be in any file of the package, e.g. a *_co_test.go)"
 		}
 	}
 	c.check(ok, "GEN.ENV", "cogen main", pos, "runs GoGen on the working directory, and only in go:generate mode (GOFILE set)", why)
